@@ -146,6 +146,12 @@ def twoStepFresnel(Uin, wvl, d1, d2, z):
     C = fouriertransform.ft2(Uitm * numpy.exp( 1j * k/(2*Dz2) * (x1a**2 + y1a**2)), d1a)
     Uout = A*B*C
 
+    # Whenever m != 1 exactly one of the two steps has a negative distance. The single-FFT
+    # Fresnel integral then yields the field on a grid that runs in the opposite direction
+    # (its spacing wvl*Dz/(N*d) is negative), so put the result back on the (x2, y2) grid.
+    if Dz1 * Dz2 < 0:
+        Uout = numpy.roll(Uout[::-1, ::-1], 1, axis=(0, 1))
+
     return Uout
 
 def lensAgainst(Uin, wvl, d1, f):
